@@ -416,6 +416,17 @@ func (w *dialogWorld) history(h int) {
 		if g.R.Intn(6) == 0 {
 			d.b.uri = d.a.uri // equal From and To URIs
 		}
+		if i > 0 && g.R.Intn(4) == 0 {
+			// a dialog related to an earlier one of this history without being the same: its
+			// Call-ID extends the other's, or it is another leg of the same call (same Call-ID
+			// and caller tag, another callee tag). Ending one must not touch the other.
+			o := ds[g.R.Intn(len(ds))]
+			if g.R.Intn(2) == 0 {
+				d.callID = o.callID + g.Alnum(1, 3)
+			} else {
+				d.callID, d.a = o.callID, o.a
+			}
+		}
 		ds = append(ds, d)
 	}
 	// schedule: repeatedly pick a dialog that still has something to do
